@@ -67,6 +67,41 @@ def t_env_explorer():
     assert ex2.replay(run, bad[0]) != b'abcdefg'
 
 
+def t_sched():
+    # toy: two threads doing a non-atomic increment lose an update under one preemption, never under zero
+    from vf.sched import Scheduler, explore
+    here = __file__
+
+    def make():
+        shared = {'n': 0}
+
+        def prog():
+            x = shared['n']
+            y = x + 1
+            shared['n'] = y
+            return y
+        return shared, [prog, prog]
+
+    def run_exec(prefix):
+        shared, progs = make()
+        x = Scheduler(progs, prefix, lambda fn: fn == here).run()
+        x.results['n'] = shared['n']
+        return x
+    outs0 = {x.results['n'] for _, x in explore(run_exec, 0)}
+    outs1 = {x.results['n'] for _, x in explore(run_exec, 1)}
+    assert outs0 == {2}, outs0
+    assert outs1 == {1, 2}, outs1
+    # determinism: replaying a recorded schedule gives the same execution
+    bad = [p for p, x in explore(run_exec, 1) if x.results['n'] == 1][0]
+    a, b = run_exec(bad), run_exec(bad)
+    assert a.choices == b.choices and a.results['n'] == b.results['n'] == 1
+    # sharding by first deviating point covers the same executions
+    n_all = sum(1 for _ in explore(run_exec, 1))
+    npts = len(run_exec(()).points)
+    n_sh = sum(1 for lo in range(0, npts, 2) for _ in explore(run_exec, 1, first_points=(lo, lo + 2)))
+    assert n_all == n_sh, (n_all, n_sh)
+
+
 def main():
     n = 0
     for k, f in sorted(globals().items()):
